@@ -27,7 +27,9 @@ func (p *PubSubChainExchange) VerifReceive(ctx context.Context, data []byte) pub
 }
 
 // VerifOwnBroadcast is what Broadcast does locally (the publish itself is not under test).
-func (p *PubSubChainExchange) VerifOwnBroadcast(ctx context.Context, m Message) { p.cacheAsWantedChain(ctx, m) }
+func (p *PubSubChainExchange) VerifOwnBroadcast(ctx context.Context, m Message) {
+	p.cacheAsWantedChain(ctx, m)
+}
 
 func (p *PubSubChainExchange) VerifEncode(m *Message) ([]byte, error) { return p.encoding.Encode(m) }
 
